@@ -404,7 +404,8 @@ func (zns *ZnPMServer) StartWorker() error {
 		// the execution timeout covers the request from the moment it is accepted: a client
 		// that never finishes sending the request head must not keep this worker busy for ever
 		// (the read fails at the deadline, the worker ends and is replaced by the master)
-		conn.SetReadDeadline(time.Now().Add(time.Duration(timeout) * time.Second))
+		deadline := time.Now().Add(time.Duration(timeout) * time.Second)
+		conn.SetReadDeadline(deadline)
 
 		// Wrap the connection in a bufio.Reader to read the HTTP request
 		bufReader := bufio.NewReader(conn)
@@ -426,7 +427,7 @@ func (zns *ZnPMServer) StartWorker() error {
 		select {
 		case <-waitSig:
 			zns.writeProcState(pipeWriter, WORKER_STATE_IDLE)
-		case <-time.After(time.Duration(timeout) * time.Second):
+		case <-time.After(time.Until(deadline)):
 			zns.writeProcState(pipeWriter, WORKER_STATE_STOPPED)
 			// wait for a while before exiting the process
 			time.Sleep(100 * time.Millisecond)
